@@ -35,6 +35,7 @@ for d in sorted(glob.glob(V + '/seeded/C*-m*')):
     patch = open(d + '/patch.diff').read()
     title = readme.split('\n', 1)[0].lstrip('# ').strip()
     title = re.sub(r'^C\d+\s*(/|mutant)?\s*(m?\d+|[ab])?\s*[-—:]*\s*', '', title).strip() or title
+    title = re.sub(r'^(R4\s*/\s*)?[ab]\s*[-—:]+\s*', '', title).strip() or title
     files = sorted(set(re.findall(r'^\+\+\+ b/(\S+)', patch, re.M)))
     demos = sorted(os.path.basename(f) for f in glob.glob(d + '/*_test.go'))
     tests, pkgname = [], None
